@@ -510,9 +510,9 @@ def _spec_form(ex, name, node, st):
             args += T.opt_inner(ex.ev(a, st)).terms
         fn = z3.Function(name, *[a.sort() for a in args], ret.sorts()[0])
         return V(ret, [fn(*args)])
-    if name in REG.opaque and name not in ex.c.reveal and not getattr(ex, "_tracing_reads", False):
+    if ((name in REG.opaque and name not in ex.c.reveal) or name in ex.c.hide) and not getattr(ex, "_tracing_reads", False):
         # opaque ghost function: uninterpreted in (arguments, the heap arrays its definition reads)
-        ret = REG.opaque[name]
+        ret = ex.c.hide.get(name) or REG.opaque[name]
         argv = [ex.ev(a, st) for a in node.args]
         ptypes = getattr(REG, "opaque_types", {}).get(name)
         if ptypes:
@@ -809,9 +809,9 @@ def _method(ex, f: ast.Attribute, node, st):
     if isinstance(ty, T.Ref):
         # property-tree attribute access convention
         cl = REG.classes.get(ty.cls, {})
-        if name == "get" and cl.get("attrget"):
-            return _attr_get(ex, node, st, base)
         m = cl.get("methods", {}).get(name)
         if m is not None:
             return _apply_directive(ex, m, node, st, ast.unparse(f))
+        if name == "get" and cl.get("attrget"):
+            return _attr_get(ex, node, st, base)
     return None
